@@ -36,7 +36,9 @@ BASE = dict(
     p_ctx_sync=0.15,
     p_try_raise=0.2,
 )
-Y = [gen.profile(kinds=k, **dict(BASE, w_stmt=dict(sync=0, orphan=0.0, raise_=0.1, try_=1.4))) for k in (2, 3, 4)]
+# (orphans: requests created and never awaited - fire-and-forget writes - still travel in their batch and count
+#  for its priority)
+Y = [gen.profile(kinds=k, **dict(BASE, w_stmt=dict(sync=0, orphan=0.9, raise_=0.1, try_=1.4))) for k in (2, 3, 4)]
 S = [gen.profile(kinds=k, **dict(BASE, w_stmt=dict(sync=2.5, orphan=0.3, raise_=0.1, try_=1.2, syncitem=1.2, cancelbatch=0.5))) for k in (2, 3)]
 # profile F: flush bodies that re-enter the scheduler (scheduler-driven flushes only: no direct item.value() flushes,
 # whose combination with a re-entering flush body is outside the stated quantifier - see DESIGN.md section 9)
